@@ -113,6 +113,10 @@ pub enum Op {
     ArmStored { c: u8 },
     /// The k-th projection (Map / MapCache closure) that runs on this thread from now on panics.
     ArmProjPanic { k: u8 },
+    /// A short sequential exercise of the parts of the API that exist only for the real
+    /// `std::sync::Arc` (from_pointee, empty, Default, From, Debug/Display, ArcSwapAny::map,
+    /// Cache::from / arc_swap), on containers private to this thread but on this thread's node.
+    StdArc { variant: u8 },
     Spawn { t: u8 },
     Join { t: u8 },
     /// Register a thread-local whose destructor performs `ops` at thread exit.
@@ -502,6 +506,6 @@ pub fn gen_program(rng: &mut Rng, p: &GenParams) -> Program {
     Program {
         conts,
         threads,
-        final_order: rng.below(4) as u8,
+        final_order: rng.below(16) as u8,
     }
 }
